@@ -206,7 +206,7 @@ def cases():
               "eubinary_delta", "eubinary_gamma", "ambinary_price", "ambinary_delta", "lookback_price"):
         cs.append(Case("reject-negative/%s" % f, reject_case(f), xmode=True, encodes=enc, expect_exc=(ValueError,),
                        bounds="tensors (2,), all real t, v", families=("basic",), batch=False))
-    for mk, dk in (("bs", "european"), ("bs", "european_binary"), ("ww", "european")):
+    for mk, dk in (("bs", "european"), ("bs", "european_binary"), ("ww", "european"), ("ww", "european_binary")):
         for cost_pos in (False, True):
             cs.append(Case("hedger/%s/%s/cost=%s" % (mk, dk, "pos" if cost_pos else "zero"), hedger_case(mk, dk, 3, cost_pos), xmode=True,
                            encodes=enc, bounds="N=1 T=3, symbolic positive path, symbolic dt, sigma, strike", families=fam, timeout=120,
